@@ -108,7 +108,7 @@ OPS = {
     "sForAll": ("f2", "B", lambda o, c: ob(f"Sh.b({c['s']}.forAll((x) -> C.ep({o['f']}, x.value)))")),
     "sExists": ("f2", "B", lambda o, c: ob(f"Sh.b({c['s']}.exists((x) -> C.ep({o['f']}, x.value)))")),
     "sEqual": ("0", "B", lambda o, c: ob(f"Sh.b({c['s']}.equal({c['so']}, (a, b) -> a.compare(b) == 0))")),
-    "sCompare": ("0", "I", lambda o, c: ob(f"Str.fromInt(C.sgn({c['s']}.compare({c['so']}, (a, b) -> a.compare(b))))")),
+    "sCompare": ("f2", "I", lambda o, c: ob(f"Str.fromInt(C.sgn({c['s']}.compare({c['so']}, (a, b) -> C.scf({o['f']}, a, b))))")),
     "sToList": ("0", "L", lambda o, c: mut("q", f"C.pq(C.unbox({c['s']}.elements()))")),
     # ---- List<int>
     "qNil": ("0", "L", lambda o, c: mut("q", f"C.pq(List.nil<int>())")),
@@ -195,6 +195,7 @@ class C {
         Some(a) -> match ob { None -> Option.None<int>(), Some(b) -> if C.mod(k.value, 2) == 0 { Option.None<int>() } else { oa } },
       }
     }
+  function scf(f: int, a: Int, b: Int): int = if f == 0 { a.compare(b) } else { 1 }
   function mapVal(k: Int, v: int): int = C.mod(v + C.mod(k.value, 7), 10)
   function ef(f: int, x: int): int = if f == 0 { x + 1 } else if f == 1 { C.mod(x, 3) } else { 0 - x }
   function fmf(x: int): Option<int> = if C.mod(x, 2) == 0 { Option.None<int>() } else { Option.Some(C.mod(x, 5)) }
@@ -308,6 +309,11 @@ WEIGHTS = {"mInsert": 7, "sInsert": 7, "qCons": 5, "mRemove": 3, "sRemove": 3, "
            "sInter": 0.7, "sDiff": 0.7, "qFilter": 0.7, "qFilterMap": 0.7, "qRest": 0.7}
 
 
+STRUCT = {"mInsert": 1.5, "sInsert": 1.5, "qCons": 1.5, "mRemove": 4, "sRemove": 4, "mUpdate": 2, "mSplit": 2.5, "sSplit": 2.5,
+          "mPartition": 2, "sPartition": 2, "mFilter": 2, "sFilter": 2, "mUnion": 3, "mCustomUnion": 3, "mMerge": 3,
+          "sUnion": 3, "sInter": 2.5, "sDiff": 2.5, "sMap": 2, "mCopy": 1, "sCopy": 1, "sSubset": 2}
+
+
 def random_sequence(rng, length, wide, avoid=()):
     if wide:
         pool = [rng.randint(-WIDE, WIDE) for _ in range(rng.randint(6, 40))]
@@ -323,12 +329,19 @@ def random_sequence(rng, length, wide, avoid=()):
     elif fam < 0.7:
         names = [n for n in names if n[0] == "q" or n == "sToList"]
     weights = [WEIGHTS.get(n, 1.0) for n in names]
+    # "grow first" profile: a burst of inserts builds trees of height 4-6, then structural operations
+    # (split / union / filter / remove ...) dominate, so that the deep rebalancing branches are reached
+    grow = 0
+    if rng.random() < 0.45 and length >= 12:
+        grow = rng.randint(length // 3, (2 * length) // 3)
+        growers = [n for n in ("mInsert", "sInsert", "qCons") if n in names] or ["mInsert"]
+        weights = [STRUCT.get(n, w) for n, w in zip(names, weights)]
     ub = {k: 0 for k in ("m0", "m1", "s0", "s1", "q0", "q1")}
     ops = []
     tries = 0
     while len(ops) < length and tries < length * 20:
         tries += 1
-        name = rng.choices(names, weights)[0]
+        name = rng.choice(growers) if len(ops) < grow else rng.choices(names, weights)[0]
         cls = OPS[name][0]
         r = rng.randint(0, 1)
         o = {"op": name, "r": r, "k": 0, "v": 0, "f": 0}
@@ -760,6 +773,7 @@ def run(tier):
     mc = tlc("CollectionsMC", "CollectionsMCquick.cfg" if quick else "CollectionsMCthorough.cfg", workers=8,
              timeout=1500, tag="c18mc", xmx="8g")
     tlc_must_pass(mc, "Collections.tla model checking")
+    log(f"[c18] model checked: {mc.distinct} states / {mc.generated} transitions, depth {mc.depth - 1}, {mc.wall:.0f}s")
     # 2. [BR] operation sequences enumerated by TLC: all of length 1, all (thorough) / a seeded sample (quick) of
     #    length 2, simulated ones of length 6
     gen1 = tlc("CollGen", "CollGen1.cfg", workers=1, timeout=600, tag="c18gen1")
@@ -781,6 +795,7 @@ def run(tier):
     names_gen = {o["op"] for b in behs1 for o in b}
     if names_gen != set(OPS):
         tool_failure(f"operation tables of Collections.tla and checks/c18.py differ: {sorted(set(OPS) ^ names_gen)}")
+    log(f"[c18] behaviours generated: {len(behs1)} + {len(behs2)} + {len(behs_sim)} at {time.time() - t0:.0f}s")
     drop = lambda bs: [b for b in bs if not any(o["op"] in excluded for o in b)]
     behs1, behs2, behs_sim = drop(behs1), drop(behs2), drop(behs_sim)
     camp = Campaign(d, std, kfs)
@@ -789,10 +804,20 @@ def run(tier):
     if witnesses:
         sids = camp.submit("known-finding-witness", [w for _, w in witnesses], 1)
         wit_sids = {sid: k for sid, (k, _) in zip(sids, witnesses)}
+    # witnesses of earlier (fixed) findings are regression inputs: they must conform now
+    open_w = {os.path.basename(k.get("witness", "")) for k in kfs}
+    regress = []
+    for p in sorted(glob.glob(os.path.join(VERIF, "findings", "C18-*.json"))):
+        if os.path.basename(p) not in open_w:
+            ops = json.load(open(p)).get("ops")
+            if ops and not any(o["op"] in excluded for o in ops):
+                regress.append(ops)
+    camp.submit("regression-witness", regress, 4)
     for part in slices(behs1 + behs2, 20000):
         camp.submit("tlc-exhaustive", part, 300)
     for part in slices(behs_sim, 8000):
         camp.submit("tlc-simulated", part, 100)
+    log(f"[c18] TLC-generated behaviours executed at {time.time() - t0:.0f}s")
     # 3. seeded random sequences of length <= 60, small and wide key range
     rng = random.Random(SEED)
     n_rand = 1500 if quick else 36000
@@ -805,6 +830,7 @@ def run(tier):
         camp.submit("random", part, 25)
         done += n
     camp.finish()
+    log(f"[c18] {done} random sequences executed and judged at {time.time() - t0:.0f}s")
     stats = camp.stats
     fails = 0
     # known findings: reported while they still reproduce
@@ -846,7 +872,7 @@ def run(tier):
         "model_depth": mc.depth - 1, "model_universe": "keys {1,2,3}, values {0,1}, lists up to 4 elements, all 79 operations",
         "tlc_generated_behaviours": {"length1_exhaustive": len(behs1), "length2": len(behs2), "length2_exhaustive": not quick,
                                      "simulated_length6": len(behs_sim)},
-        "random_sequences": done, "random_max_length": 60, "key_ranges": ["0..7", f"+-{WIDE}"],
+        "regression_witnesses": len(regress), "random_sequences": done, "random_max_length": 60, "key_ranges": ["0..7", f"+-{WIDE}"],
         "operations_executed": stats.get("ops_rows", 0),
         "operations_validated": stats.get("ops_rows", 0) - stats.get("ops_skipped", 0),
         "operations_not_judged_after_a_deviation": stats.get("ops_skipped", 0),
